@@ -27,7 +27,8 @@ package utils
 //@ loop 2 invariant newStatus.Namespaces != nil && fresh(newStatus.Namespaces) && shardsToAdd != nil && fresh(shardsToAdd) && nss.Shards != nil && fresh(nss.Shards)
 //@ loop 2 invariant newStatus.ShardIdGenerator == rangeslice[0].Id && len(rangeslice) == nc.InitialShardCount
 //@ loop 2 invariant forall j int :: 0 <= j && j < len(rangeslice) ==> rangeslice[j].Id == newStatus.ShardIdGenerator + j
-//@ loop 2 invariant forall j int :: 0 <= j && j <= rangeindex ==> inmap(nss.Shards, newStatus.ShardIdGenerator + j) && nss.Shards[newStatus.ShardIdGenerator + j].Int32HashRange.Min == rangeslice[j].Min && nss.Shards[newStatus.ShardIdGenerator + j].Int32HashRange.Max == rangeslice[j].Max
+//@ loop 2 invariant forall j int :: 0 <= j && j <= rangeindex ==> inmap(nss.Shards, newStatus.ShardIdGenerator + j)
+//@ loop 2 invariant forall j int :: 0 <= j && j <= rangeindex ==> nss.Shards[rangeslice[j].Id].Int32HashRange.Min == rangeslice[j].Min && nss.Shards[rangeslice[j].Id].Int32HashRange.Max == rangeslice[j].Max
 //@ loop 2 invariant forall j int :: 0 <= j && j <= rangeindex ==> len(nss.Shards[newStatus.ShardIdGenerator + j].Ensemble) == nc.ReplicationFactor
 //@ loop 2 invariant forall id int64 :: inmap(nss.Shards, id) ==> newStatus.ShardIdGenerator <= id && id < newStatus.ShardIdGenerator + nc.InitialShardCount
 //@ loop 2 invariant forall id int64 :: inmap(shardsToAdd, id) ==> old(currentStatus.ShardIdGenerator) <= id && id < newStatus.ShardIdGenerator
